@@ -24,6 +24,9 @@ const settleTimeout = 8 * time.Second
 type recPlugin struct {
 	mu      sync.Mutex
 	reject  bool
+	setID   bool          // overlap mode: the accept hook sets nextID as the session id
+	nextID  string
+	hooked  []interface{} // sessions in the order their accept hooks ran
 	last    interface{} // the session seen by the last PostAccept/PostDial
 	lastID  string
 	discs   map[interface{}]int
@@ -39,6 +42,10 @@ func (r *recPlugin) hook(s erpc.PreSession, id string) *erpc.Status {
 	defer r.mu.Unlock()
 	r.last = interface{}(s)
 	r.lastID = id
+	r.hooked = append(r.hooked, interface{}(s))
+	if r.setID && r.nextID != "" {
+		s.SetID(r.nextID)
+	}
 	if r.reject {
 		return erpc.NewStatus(403, "rejected by hook", "")
 	}
@@ -275,6 +282,16 @@ func (w *world) numberOf(s erpc.Session) int {
 // observe returns the observation entry (without the event's own result) and runs the
 // property oracles on the implementation's own answers.
 func (w *world) observe(st *Stats, idx int, human string) string {
+	return w.observeOn(w.P, st, idx, human)
+}
+
+// observeOn observes the sessions and the index of peer P; with st == nil nothing is judged.
+func (w *world) observeOn(P erpc.Peer, st *Stats, idx int, human string) string {
+	fail := func(key, what string) {
+		if st != nil {
+			st.Fail(idx, key, what, human)
+		}
+	}
 	var so []string
 	healthy := map[int]bool{}
 	for _, pr := range w.pairs {
@@ -302,7 +319,7 @@ func (w *world) observe(st *Stats, idx int, human string) string {
 		so = append(so, VL(VS(hs), VS(fs), VN(int64(hooks)), VN(int64(starts))))
 		// oracles
 		if h && pr.dead {
-			st.Fail(idx, "absorbing", fmt.Sprintf("session %d healthy again after it was closed", pr.n), human)
+			fail("absorbing", fmt.Sprintf("session %d healthy again after it was closed", pr.n))
 		}
 		if !h {
 			if !pr.dead {
@@ -310,29 +327,32 @@ func (w *world) observe(st *Stats, idx int, human string) string {
 				pr.startsAtDeath = starts
 			}
 			if !fired {
-				st.Fail(idx, "notify", fmt.Sprintf("session %d closed but CloseNotify has not fired", pr.n), human)
+				fail("notify", fmt.Sprintf("session %d closed but CloseNotify has not fired", pr.n))
 			}
-			if hooks != 1 {
-				st.Fail(idx, "hook-once", fmt.Sprintf("session %d closed, disconnect hook ran %d times", pr.n, hooks), human)
+			if isClosed(pr.p) && hooks != 1 {
+				fail("hook-once", fmt.Sprintf("session %d closed, disconnect hook ran %d times", pr.n, hooks))
+			}
+			if hooks > 1 {
+				fail("hook-once", fmt.Sprintf("session %d: disconnect hook ran %d times", pr.n, hooks))
 			}
 			if starts != pr.startsAtDeath {
-				st.Fail(idx, "handler-after-close", fmt.Sprintf("session %d: a handler started after close", pr.n), human)
+				fail("handler-after-close", fmt.Sprintf("session %d: a handler started after close", pr.n))
 			}
 		} else {
 			if fired {
-				st.Fail(idx, "notify", fmt.Sprintf("session %d healthy but CloseNotify fired", pr.n), human)
+				fail("notify", fmt.Sprintf("session %d healthy but CloseNotify fired", pr.n))
 			}
 			if hooks != 0 {
-				st.Fail(idx, "hook-once", fmt.Sprintf("session %d healthy but disconnect hook ran %d times", pr.n, hooks), human)
+				fail("hook-once", fmt.Sprintf("session %d healthy but disconnect hook ran %d times", pr.n, hooks))
 			}
-			if x, ok := w.P.GetSession(pr.p.ID()); !ok || interface{}(x) != interface{}(pr.p) {
-				st.Fail(idx, "index", fmt.Sprintf("live session %d is not in the index under its id %q", pr.n, pr.p.ID()), human)
+			if x, ok := P.GetSession(pr.p.ID()); !ok || interface{}(x) != interface{}(pr.p) {
+				fail("index", fmt.Sprintf("live session %d is not in the index under its id %q", pr.n, pr.p.ID()))
 			}
 		}
 	}
 	var io []string
 	for _, id := range w.ids {
-		s, ok := w.P.GetSession(w.idStr[id])
+		s, ok := P.GetSession(w.idStr[id])
 		if !ok {
 			io = append(io, VS("none"))
 			continue
@@ -340,22 +360,22 @@ func (w *world) observe(st *Stats, idx int, human string) string {
 		k := w.numberOf(s)
 		io = append(io, VN(int64(k)))
 		if k < 0 || !s.Health() || s.ID() != w.idStr[id] {
-			st.Fail(idx, "index", fmt.Sprintf("index entry %q is not a live session with that id (session %d)", w.idStr[id], k), human)
+			fail("index", fmt.Sprintf("index entry %q is not a live session with that id (session %d)", w.idStr[id], k))
 		}
 	}
-	cnt := w.P.CountSession()
+	cnt := P.CountSession()
 	var rng []int
-	w.P.RangeSession(func(s erpc.Session) bool { rng = append(rng, w.numberOf(s)); return true })
+	P.RangeSession(func(s erpc.Session) bool { rng = append(rng, w.numberOf(s)); return true })
 	sort.Ints(rng)
 	var ro []string
 	for _, k := range rng {
 		ro = append(ro, VN(int64(k)))
 		if !healthy[k] {
-			st.Fail(idx, "index", fmt.Sprintf("RangeSession yields session %d which is not live", k), human)
+			fail("index", fmt.Sprintf("RangeSession yields session %d which is not live", k))
 		}
 	}
 	if cnt != len(healthy) || len(rng) != len(healthy) {
-		st.Fail(idx, "index", fmt.Sprintf("CountSession=%d RangeSession=%d but %d sessions are live", cnt, len(rng), len(healthy)), human)
+		fail("index", fmt.Sprintf("CountSession=%d RangeSession=%d but %d sessions are live", cnt, len(rng), len(healthy)))
 	}
 	return strings.Join([]string{VL(so...), VL(io...), VN(int64(cnt)), VL(ro...)}, " ")
 }
@@ -525,7 +545,7 @@ func runHist(cfg *RunCfg) {
 }
 
 func main() {
-	mode := flag.String("mode", "hist", "hist|race")
+	mode := flag.String("mode", "hist", "hist|race|overlap")
 	cfg := ParseFlags()
 	Quiet()
 	switch *mode {
@@ -533,6 +553,8 @@ func main() {
 		runHist(cfg)
 	case "race":
 		runRace(cfg)
+	case "overlap":
+		runOverlap(cfg)
 	default:
 		fmt.Fprintln(os.Stderr, "unknown mode")
 		os.Exit(2)
